@@ -231,4 +231,9 @@ def instances(tier):
     add('hodograph', h_hodograph_surface, spec('surface', (3, 2), ((1,), ()), rational=False), timeout=1800)
     for normalize in (False, True):
         add('tangent_normal', h_tangent_normal, spec('surface', (1, 1), ((1,), ()), rational=False), timeout=1800, normalize=normalize)
+    # geometry of every size: a fixed regular net times one symbolic factor (unit vectors must be unit vectors at micro scale too)
+    for sp in (spec('curve', (2,), ((1,),), rational=False, dim=3, scaled=True), spec('curve', (3,), ((),), rational=True, dim=2, scaled=True),
+               spec('surface', (1, 2), ((1,), ()), rational=False, scaled=True), spec('surface', (2, 2), ((), (1,)), rational=False, scaled=True),
+               spec('surface', (2, 1), ((), ()), rational=True, scaled=True), spec('surface', (1, 2), ((), ()), rational=False, scaled=True, doms=[(0, 1000), (-2000, 3000)])):
+        add('tangent' if sp['kind'] == 'curve' else 'tangent_normal', h_tangent_normal, sp, timeout=1800, normalize=True)
     return out
